@@ -18,10 +18,12 @@ BagOfSeq(s) == [ x \in SeqToSet(s) |-> Cardinality({ i \in 1..Len(s) : s[i] = x 
 ResetCounters == TLCSet(1, 0) /\ TLCSet(2, 0) /\ TLCSet(3, 0)
 
 (* v = <<"ok">> | <<"known:<d>", clauses>> | <<"violation", clauses>> *)
-Record(ev, v) ==
+RecordD(ev, v, detail) ==
     IF v[1] = "ok" THEN TLCSet(1, TLCGet(1) + 1)
-    ELSE /\ PrintT(<<"VERDICT", ev.tid, v[1], v[2]>>)
+    ELSE /\ PrintT(<<"VERDICT", ev.tid, v[1], v[2], detail>>)
          /\ IF v[1] = "violation" THEN TLCSet(3, TLCGet(3) + 1) ELSE TLCSet(2, TLCGet(2) + 1)
+
+Record(ev, v) == RecordD(ev, v, <<>>)
 
 (* fails = set of failing clause names; dev = "" or the enabled deviation that explains the event *)
 MkVerdict(fails, dev) ==
